@@ -170,11 +170,14 @@ def build_drivers(it, p, names=(("DevA", "DEVA"), ("DevB", "DEVB")), router=None
                     ns.set(Const(k), Obj(None, label=f"<{ci.name}.{k}>"))
             for k in list(ci.methods) + list(ci.getters):
                 ns.set(Const(k), Obj(None, label=f"<{ci.name}.{k}>"))
+            before = {k.v: v for k, v in ns.pairs if isinstance(k, Const)}
             it.run_function(Fn(new), [Cls(meta), Const(ci.name), Tup([Cls(b) for b in ci.bases]), ns], {})
-            tbl = ns.get(Const("_group_definitions"))
-            if tbl is None:
-                raise Undecided("DriverMeta.__new__ leaves no _group_definitions in the class namespace")
-            it.heap[("cls:" + ci.qualname, "_group_definitions")] = tbl
+            # whatever the metaclass adds to the class namespace becomes a class-level object of that class
+            added = [(k.v, v) for k, v in ns.pairs if isinstance(k, Const) and before.get(k.v) is not v]
+            if not added:
+                raise Undecided("DriverMeta.__new__ adds nothing to the class namespace (no group-definition table)")
+            for k, v in added:
+                it.heap[("cls:" + ci.qualname, k)] = v
         for cname, dname in names:
             ci = p.cls(f"{modname}.{cname}")
             d = it.apply(Cls(ci), [], {"name": Const(dname), "router": router if router is not None else Const(None)}, [], None, fr, False)
